@@ -31,20 +31,20 @@ enabled; only adds nodes; the memo (keyed by the pair) stays sound; the result i
 quantified conjunction through `umap` AFTERWARDS.  `ImgOK` asks: `umap` sends the levels that
 are not quantified to declared levels; `vmap` is strictly increasing on the support of `v`
 (all that is used of "neighbours"), sends it to declared levels, and does not move the level
-of the terminal. -/
-theorem C13_imageF (umap vmap : Option (List (Int × Int))) (Q : List Nat) (fa : Bool)
-    (rU rV : Nat → Nat) (S : Nat → Prop) (f : Nat) (m : Mgr) (u v : Int)
+of the terminal; no level met is a key whose value is an undeclared name (`ubad`, `vbad`). -/
+theorem C13_imageF (umap vmap : Option (List (Int × Int))) (ubad vbad : List Int) (Q : List Nat)
+    (fa : Bool) (rU rV : Nat → Nat) (S : Nat → Prop) (f : Nat) (m : Mgr) (u v : Int)
     (cache : HashMap (Int × Int) Int)
-    (hP : ImgOK umap vmap Q rU rV S m.nvars)
+    (hP : ImgOK umap vmap ubad vbad Q rU rV S m.nvars)
     (hI : Inv m) (hoff : m.lastLen = none) (hu : m.tbl.Mem u) (hv : m.tbl.Mem v)
     (hS : ∀ j, InSupp m.tbl v j → S j) (hmemo : IMemo fa Q rU rV m.tbl cache)
     (hfuel : 2 * m.nvars + 1 ≤ f + m.tbl.levelOf u + m.tbl.levelOf v) :
-    ∃ r c' m', imageF umap vmap Q fa f u v cache m = (.ok (r, c'), m') ∧
+    ∃ r c' m', imageF umap vmap ubad vbad Q fa f u v cache m = (.ok (r, c'), m') ∧
       Inv m' ∧ Ext m.tbl m'.tbl ∧ Frame m m' ∧ IMemo fa Q rU rV m'.tbl c' ∧ m'.tbl.Mem r ∧
       ∀ a, den m'.tbl r a = true ↔
         qsem fa Q (fun b => den m.tbl u b && den m.tbl v (fun j => b (rV j)))
           (fun z => a (rU z)) := by
-  obtain ⟨r, c', m', he, hs, hm, hp⟩ := imageF_spec umap vmap Q fa rU rV S m.nvars hP
+  obtain ⟨r, c', m', he, hs, hm, hp⟩ := imageF_spec umap vmap ubad vbad Q fa rU rV S m.nvars hP
     f m u v cache hI hoff rfl hu hv hS hmemo hfuel
   refine ⟨r, c', m', he, hs.inv, hs.ext, hs.frame, hm, hp.mr, ?_⟩
   intro a
@@ -62,7 +62,7 @@ theorem C13_imageF_image (rn : List (Int × Int)) (Q : List Nat) (fa : Bool) (re
       (rn.lookup (z : Int)).getD (z : Int) = (ren z : Int) ∧ ren z < m.nvars)
     (hmemo : IMemo fa Q ren id m.tbl cache)
     (hfuel : 2 * m.nvars + 1 ≤ f + m.tbl.levelOf u + m.tbl.levelOf v) :
-    ∃ r c' m', imageF (some rn) none Q fa f u v cache m = (.ok (r, c'), m') ∧
+    ∃ r c' m', imageF (some rn) none [] [] Q fa f u v cache m = (.ok (r, c'), m') ∧
       Inv m' ∧ Ext m.tbl m'.tbl ∧ Frame m m' ∧ IMemo fa Q ren id m'.tbl c' ∧ m'.tbl.Mem r ∧
       ∀ a, den m'.tbl r a = true ↔
         qsem fa Q (fun b => den m.tbl u b && den m.tbl v b) (fun z => a (ren z)) :=
@@ -80,7 +80,7 @@ theorem C13_imageF_preimage (rn : List (Int × Int)) (Q : List Nat) (fa : Bool) 
     (hmono : ∀ j j', S j → S j' → j < j' → rV j < rV j')
     (hmemo : IMemo fa Q id rV m.tbl cache)
     (hfuel : 2 * m.nvars + 1 ≤ f + m.tbl.levelOf u + m.tbl.levelOf v) :
-    ∃ r c' m', imageF none (some rn) Q fa f u v cache m = (.ok (r, c'), m') ∧
+    ∃ r c' m', imageF none (some rn) [] [] Q fa f u v cache m = (.ok (r, c'), m') ∧
       Inv m' ∧ Ext m.tbl m'.tbl ∧ Frame m m' ∧ IMemo fa Q id rV m'.tbl c' ∧ m'.tbl.Mem r ∧
       ∀ a, den m'.tbl r a = true ↔
         qsem fa Q (fun b => den m.tbl u b && den m.tbl v (fun j => b (rV j))) a :=
@@ -98,10 +98,11 @@ theorem C13_adjacent_mono (rn : List (Int × Int)) (S : Nat → Prop)
 
 /-- non-vacuity (`C13_imageF`, `C13_imageF_image`): `_image` as `image` calls it on the example
 manager (`x` < `xp`): `∃ x. (x ↔ xp) ∧ (x ∨ xp)`, then `xp` renamed to `x`, is `x` -/
-example : ∃ r c' m', imageF (some [(1, 0)]) none [0] false 8 3 4 {} imgM = (.ok (r, c'), m') ∧
+example : ∃ r c' m', imageF (some [(1, 0)]) none [] [] [0] false 8 3 4 {} imgM = (.ok (r, c'), m') ∧
     ∀ a, den m'.tbl r a = a 0 := by
-  have hP : ImgOK (some [(1, 0)]) none [0] (renOf [(1, 0)]) id (fun j => j < 2) imgM.nvars := by
-    refine ⟨?_, fun j hj => ⟨rfl, by rw [imgM_nvars']; exact hj⟩, rfl, fun _ _ _ _ h => h⟩
+  have hP : ImgOK (some [(1, 0)]) none [] [] [0] (renOf [(1, 0)]) id (fun j => j < 2) imgM.nvars := by
+    refine ⟨?_, fun j hj => ⟨rfl, by rw [imgM_nvars']; exact hj⟩, rfl, fun _ _ _ _ h => h,
+      fun _ _ _ => rfl, fun _ _ => rfl⟩
     intro z hz hq
     rw [imgM_nvars'] at hz ⊢
     have : z = 1 := by
@@ -110,7 +111,7 @@ example : ∃ r c' m', imageF (some [(1, 0)]) none [0] false 8 3 4 {} imgM = (.o
       | 1, _ => rfl
     subst this
     decide
-  obtain ⟨r, c', m', he, _, _, _, _, _, hd⟩ := C13_imageF (some [(1, 0)]) none [0] false
+  obtain ⟨r, c', m', he, _, _, _, _, _, hd⟩ := C13_imageF (some [(1, 0)]) none [] [] [0] false
     (renOf [(1, 0)]) id (fun j => j < 2) 8 imgM 3 4 {} hP imgM_inv rfl
     (imgM_mem _ (by decide)) (imgM_mem _ (by decide))
     (fun j hj => by have := hj.lt_nvars imgM_inv.wf.toWF; rwa [imgM_nvars] at this)
@@ -137,7 +138,7 @@ example : ∃ r c' m', imageF (some [(1, 0)]) none [0] false 8 3 4 {} imgM = (.o
 
 /-- non-vacuity (`C13_imageF_preimage`, `C13_adjacent_mono`): `_image` as `preimage` calls it:
 `∃ xp. (x ↔ xp) ∧ xp` (the target `x` renamed to `xp`) is `x` -/
-example : ∃ r c' m', imageF none (some [(0, 1)]) [1] false 8 3 5 {} imgM = (.ok (r, c'), m') ∧
+example : ∃ r c' m', imageF none (some [(0, 1)]) [] [] [1] false 8 3 5 {} imgM = (.ok (r, c'), m') ∧
     ∀ a, den m'.tbl r a = a 0 := by
   have hW := imgM_inv.wf.toWF
   have hS : ∀ j, InSupp imgM.tbl 5 j → j = 0 := by
@@ -384,11 +385,12 @@ example : image 3 4 [(.lvl 0, .lvl 1), (.lvl 1, .lvl 0)] [] false imgM = (.error
 /-! ### `preimage` -/
 
 /-- the hypotheses shared by the full statement and its proved part: the documented
-preconditions of `preimage` (pairs of declared levels, each adjacent, keys disjoint from values)
-plus "no two keys with the same value" -/
+preconditions of `preimage` (pairs of declared levels, each adjacent, keys disjoint from values;
+no level is renamed to an undeclared name) plus "no two keys with the same value" -/
 structure PreimagePre (m : Mgr) (rn : List (Key × Key)) : Prop where
   nonempty : resolveRename m.tbl rn ≠ [] → 0 < m.nvars
   noOverlap : renameOverlap (resolveRename m.tbl rn) = false
+  noName : badKeys (resolveRename m.tbl rn) = []
   levels : ∀ p, p ∈ intPairs (resolveRename m.tbl rn) →
     0 ≤ p.1 ∧ p.1 < (m.nvars : Int) ∧ 0 ≤ p.2 ∧ p.2 < (m.nvars : Int)
   adjacent : ∀ p, p ∈ intPairs (resolveRename m.tbl rn) → (p.1 - p.2).natAbs = 1
@@ -416,7 +418,7 @@ theorem C13_preimage_partial (m : Mgr) (hI : Inv m) (hoff : m.lastLen = none)
       ¬ dependsOn m.tbl target l) :
     PreimagePost m trans target rn qvars fa q :=
   preimage_spec_partial m hI hoff hV trans target hu hv rn qvars fa q hq hpre.nonempty
-    hpre.noOverlap hpre.levels hpre.adjacent hpre.injective hind
+    hpre.noOverlap hpre.noName hpre.levels hpre.adjacent hpre.injective hind
 
 /-- C13 (`preimage`, renaming and `qvars` given BY NAME) — proved part: declared names, pairwise
 distinct keys, no key is a value, partners adjacent, no two keys with the same value, and the
@@ -459,7 +461,8 @@ example : (∀ fa, PreimagePost imgM 3 5 [(.lvl 0, .lvl 1)] [.lvl 1] fa [1]) ∧
     simp only [List.map] at hres hip
     refine C13_preimage_partial imgM imgM_inv rfl imgM_varsBij 3 5 (imgM_mem _ (by decide))
       (imgM_mem _ (by decide)) [(.lvl 0, .lvl 1)] [.lvl 1] fa [1] (by rfl) ?_ ?_
-    · refine ⟨fun _ => by rw [imgM_nvars']; omega, by rw [hres]; decide, ?_, ?_, ?_⟩
+    · refine ⟨fun _ => by rw [imgM_nvars']; omega, by rw [hres]; decide, by rw [hres]; decide,
+        ?_, ?_, ?_⟩
       · rw [hres, hip]; intro p hp; simp at hp; subst hp; rw [imgM_nvars']; decide
       · rw [hres, hip]; intro p hp; simp at hp; subst hp; decide
       · rw [hres, hip]; intro p p' hp hp' _; simp at hp hp'; rw [hp, hp']
@@ -520,7 +523,8 @@ theorem C13_preimage_statement_false : ¬ C13_preimage_statement := by
   have hpairs : intPairs [(Key.lvl 0, Key.lvl 1)] = [(0, 1)] := by decide
   have hq : mapToLevelE imgM.tbl [.lvl 1] = .ok [1] := by rfl
   have hpre : PreimagePre imgM [(.lvl 0, .lvl 1)] := by
-    refine ⟨fun _ => by rw [imgM_nvars']; omega, by rw [hres]; decide, ?_, ?_, ?_⟩
+    refine ⟨fun _ => by rw [imgM_nvars']; omega, by rw [hres]; decide, by rw [hres]; decide,
+      ?_, ?_, ?_⟩
     · intro p hp
       rw [hres, hpairs] at hp
       simp only [List.mem_singleton] at hp
@@ -546,7 +550,8 @@ theorem C13_preimage_statement_false : ¬ C13_preimage_statement := by
     have hav : assertValidRename [(Key.lvl 0, Key.lvl 1)] imgM = (.ok (), imgM) :=
       assertValidRename_ok imgM imgM_varsBij _ (fun _ => by rw [imgM_nvars']; omega) (by decide)
     have hfuel : 2 * imgM.nvars + 4 = 8 := by rw [imgM_nvars']
-    simp only [hq, hres, hav, hpairs, hfuel, hrun]
+    have hbk : badKeys [(Key.lvl 0, Key.lvl 1)] = [] := by decide
+    simp only [hq, hres, hav, hpairs, hbk, hfuel, hrun]
   rw [hpre'] at he
   have hr : r' = r := by
     have := congrArg Prod.fst he
@@ -575,6 +580,7 @@ theorem C13_preimage_needs_injective :
         mapToLevelE m.tbl qvars = .ok q →
         (resolveRename m.tbl rn ≠ [] → 0 < m.nvars) →
         renameOverlap (resolveRename m.tbl rn) = false →
+        badKeys (resolveRename m.tbl rn) = [] →
         (∀ p, p ∈ intPairs (resolveRename m.tbl rn) →
           0 ≤ p.1 ∧ p.1 < (m.nvars : Int) ∧ 0 ≤ p.2 ∧ p.2 < (m.nvars : Int)) →
         (∀ p, p ∈ intPairs (resolveRename m.tbl rn) → (p.1 - p.2).natAbs = 1) →
@@ -590,6 +596,7 @@ theorem C13_preimage_needs_injective :
   obtain ⟨r, m', he, _, _, _, _, hd⟩ := h imgM3 imgM3_inv rfl imgM3_varsBij 1 (-3)
     (mem_one _) (imgM3_mem _ (by decide)) [(.lvl 0, .lvl 1), (.lvl 2, .lvl 1)] [.lvl 1] false
     [1] hq (fun _ => by rw [imgM3_nvars']; omega) (by rw [hres]; exact hov)
+    (by rw [hres]; decide)
     (by
       rw [hres, hpairs]; intro p hp; simp at hp
       rcases hp with rfl | rfl <;> (rw [imgM3_nvars']; decide))
@@ -613,7 +620,8 @@ theorem C13_preimage_needs_injective :
         (.ok (), imgM3) :=
       assertValidRename_ok imgM3 imgM3_varsBij _ (fun _ => by rw [imgM3_nvars']; omega) hov
     have hfuel : 2 * imgM3.nvars + 4 = 10 := by rw [imgM3_nvars']
-    simp only [hq, hres, hav, hpairs, hfuel, hrun]
+    have hbk : badKeys [(Key.lvl 0, Key.lvl 1), (Key.lvl 2, Key.lvl 1)] = [] := by decide
+    simp only [hq, hres, hav, hpairs, hbk, hfuel, hrun]
   rw [hpre'] at he
   have hr : r' = r := by
     have := congrArg Prod.fst he
